@@ -244,8 +244,9 @@ Definition wf_peek (w : wfq) : wfq * pq_res :=
   if wf_sel w then (w, wf_head (wf_qs w) (wf_selsid w))
   else match wf_scan (wf_qs w) None with
        | None => (w, PR_nil)
-       | Some (c, s, _) =>
-           (mkWfq (wf_qs w) (wf_fin w) (wf_w w) (wf_scale w) (wf_vt w) true s, PR_chunk c)
+       | Some (c, s, f) =>
+           (* the selected chunk is in service from now on: virtualTime = max(virtualTime, its finish tag) *)
+           (mkWfq (wf_qs w) (wf_fin w) (wf_w w) (wf_scale w) (Z.max (wf_vt w) f) true s, PR_chunk c)
        end.
 
 Definition wf_pop (w : wfq) (c : pchunk) : wfq * Z :=
@@ -266,8 +267,8 @@ Definition wf_pop (w : wfq) (c : pchunk) : wfq * Z :=
 
 (* comparator glue only (NOT a Go function): follow the implementation's choice after a tolerated
    floating-point rounding tie *)
-Definition wf_force_select (w : wfq) (s : Z) : wfq :=
-  mkWfq (wf_qs w) (wf_fin w) (wf_w w) (wf_scale w) (wf_vt w) true s.
+Definition wf_force_select (w : wfq) (s : Z) (f : Z) : wfq :=
+  mkWfq (wf_qs w) (wf_fin w) (wf_w w) (wf_scale w) (Z.max (wf_vt w) f) true s.
 
 (* ---------- pendingQueue ---------- *)
 (* the scheduler factory handed to newPendingQueue: nil, round-robin, or WFQ with a weight map *)
